@@ -2162,8 +2162,45 @@ def _coq_str(s: str) -> str:
     return '[' + '; '.join(str(ord(c)) for c in s) + ']%N'
 
 
+def _binformat_helpers() -> dict:
+    """srctools/binformat.py (another module): do `read_nullstr` and `read_nullstr_array`, through which parse_bin reads every
+    string, decode with the codec they are given?  read_nullstr: the one `.decode(X)` has X = its `encoding` parameter;
+    read_nullstr_array: its one call of read_nullstr passes its own `encoding` parameter on (third positional or by keyword)."""
+    tree = ast.parse(src_text('binformat.py'))
+    out = {}
+
+    def enc_param(fn):
+        names = [a.arg for a in fn.args.args]
+        if 'encoding' not in names:
+            _fail(f'binformat.{fn.name}: no `encoding` parameter', fn)
+        return names.index('encoding')
+    rn = _top_func(tree, 'read_nullstr')
+    pos_rn = enc_param(rn)
+    decs = [c for c in ast.walk(rn) if isinstance(c, ast.Call) and isinstance(c.func, ast.Attribute) and c.func.attr == 'decode']
+    if len(decs) != 1:
+        _fail(f'binformat.read_nullstr: expected one .decode(...) call, found {len(decs)}', rn)
+    d = decs[0]
+    arg = d.args[0] if d.args else next((k.value for k in d.keywords if k.arg == 'encoding'), None)
+    extra = len(d.args) > 1 or any(k.arg != 'encoding' for k in d.keywords)
+    stores = [n for n in ast.walk(rn) if isinstance(n, ast.Name) and n.id == 'encoding' and not isinstance(n.ctx, ast.Load)]
+    out['nullstr'] = isinstance(arg, ast.Name) and arg.id == 'encoding' and not extra and not stores
+    out['nullstr_line'] = d.lineno
+    ra = _top_func(tree, 'read_nullstr_array')
+    enc_param(ra)
+    calls = [c for c in ast.walk(ra) if isinstance(c, ast.Call) and ast.unparse(c.func) == 'read_nullstr']
+    if len(calls) != 1:
+        _fail(f'binformat.read_nullstr_array: expected one call of read_nullstr, found {len(calls)}', ra)
+    c = calls[0]
+    passed = c.args[pos_rn] if len(c.args) > pos_rn else next((k.value for k in c.keywords if k.arg == 'encoding'), None)
+    stores = [n for n in ast.walk(ra) if isinstance(n, ast.Name) and n.id == 'encoding' and not isinstance(n.ctx, ast.Load)]
+    out['array'] = isinstance(passed, ast.Name) and passed.id == 'encoding' and not stores
+    out['array_line'] = c.lineno
+    return out
+
+
 def translate() -> tuple[str, dict]:
     tree = _normalise_module(ast.parse(src_text('dmx.py')))
+    bfh = _binformat_helpers()
     _STRUCTS.clear()
     _STRUCTS.update(_module_structs(tree))
     vts = _value_types(tree)
@@ -2375,6 +2412,9 @@ def translate() -> tuple[str, dict]:
         '(* _export_kv2: the skip test of the loop over the members; _parse_kv2_element: the test in front of the name setter *)',
         f'Definition gen_kv2_skip : mfilter := {mfilter(kv2m["skip"])}.',
         f'Definition gen_kv2_name_test : nametest := {kv2m["name_test"]}.',
+        '(* srctools/binformat.py: read_nullstr decodes with the codec it is given; read_nullstr_array passes its codec on to read_nullstr *)',
+        f'Definition gen_bf_nullstr_decodes_with_codec : bool := {b(bfh["nullstr"])}.',
+        f'Definition gen_bf_array_passes_codec_on : bool := {b(bfh["array"])}.',
         '(* parse_bin: are element types, element names, attribute names and string values stored exactly as read (string table entry / read_nullstr) *)',
         f'Definition gen_bin_strings_stored_as_read : bool := {b(pb["strings_as_read"])}.',
         '(* _export_kv2: is the name line written for every element; for which (cull_uuid, is a root) is the id line written *)',
